@@ -12,3 +12,8 @@ open GoSQLXModel
 #print axioms Props.C07.recovery_iff_parse_fails
 #print axioms Props.C07.validate_iff_parse
 #print axioms Props.C07.validate_same_code
+#print axioms Batch.batch_eq_spec
+#print axioms Props.C07.batch_is_spec
+#print axioms Props.C07.batch_fails_iff_first_failure
+#print axioms Props.C07.batch_all_ok
+#print axioms Props.C07.batch_of_concatenation
